@@ -304,7 +304,7 @@ def brStep (p : BufferReaderObj) (o : BrOp) : TOut ((Bytes × Nat) × BufferRead
       | .panic s => .panic s
       | .oob => .oob
     | .bin =>
-      match brReadBinary rd with
+      match Wire.brReadBinary rd with
       | .ok r => .ok ((r.1, r.2.readLen), ⟨some r.2⟩, [])
       | .err e => .err e
       | .panic s => .panic s
